@@ -6,6 +6,9 @@ CONSTANTS
   ScriptSizes = {20, 30000, 66000}
   FeatSizes = {14, 40000, 66000}
   EmitCases = TRUE
+  Types = {0}
+  ExtType = 7
+  Recognised = {0}
   Fix28 = FALSE
 INIT Init
 NEXT Next
